@@ -403,6 +403,12 @@ class BernoulliFamily(StatelessDistributionFamilyFromTorchDistribution):
     parameters: ClassVar = ("loc",)
     dist_factory: ClassVar = torch.distributions.Bernoulli
 
+    @classmethod
+    def _nll(cls, x: WeightedTensor, loc: torch.Tensor) -> WeightedTensor:
+        # values under a zero weight are meaningless (they may be anything, including numbers
+        # outside the support): they must neither be validated nor evaluated
+        return WeightedTensor(-cls.dist_factory(loc).log_prob(x.filled(0.0)), x.weight)
+
 
 class NormalFamily(StatelessDistributionFamilyFromTorchDistribution):
     """
